@@ -97,10 +97,13 @@ type L2Blk struct {
 	Claims []ClaimIn `json:"claims"`
 }
 type In struct {
-	L1       []L1Blk `json:"l1"`
-	Fin      uint64  `json:"fin"`      // number of the L1 node's finalized block
-	FinSalt  uint64  `json:"fin_salt"` // header salt for numbers that are not blocks of L1
-	FinErr   bool    `json:"fin_err,omitempty"`
+	L1      []L1Blk `json:"l1"`
+	Fin     uint64  `json:"fin"`      // number of the L1 node's finalized block
+	FinSalt uint64  `json:"fin_salt"` // header salt for numbers that are not blocks of L1
+	FinErr  bool    `json:"fin_err,omitempty"`
+	// Warm: before the attempt that is observed, the SAME querier and flow make one attempt while the L1 node reports this (older)
+	// finalized block and nothing fails; its result is discarded. What it may leave behind must not matter afterwards.
+	Warm     *uint64 `json:"warm,omitempty"`
 	HdrErr   bool    `json:"hdr_err,omitempty"` // HeaderByNumber(n) fails
 	L2       []L2Blk `json:"l2"`
 	NamedIdx int64   `json:"named_idx"` // direct call against the root recorded for this L1 info index; -1 = none
@@ -159,17 +162,19 @@ type HdrObs struct {
 	Hash string `json:"hash"`
 }
 type Out struct {
-	In      In        `json:"in"`
-	L1Res   []string  `json:"l1res"`
-	L1Hash  []string  `json:"l1hash"` // the hash the syncer stored per block
-	Fin     *HdrObs   `json:"fin"`    // what the scripted node answers for the finalized tag (nil = error)
-	Hdrs    []HdrObs  `json:"hdrs"`   // ... and for every explicit number of an L1 block (empty when HdrErr)
-	Claims  []ClaimIn `json:"claims"` // the claims as the REAL L2 store returned them for [1, last]
-	RTripOK bool      `json:"rtrip_ok"`
-	Named   string    `json:"named"` // resolved named root ("" = none)
-	PP      Obs       `json:"pp"`
-	Direct  Obs       `json:"direct"`
-	Err     string    `json:"err,omitempty"`
+	In       In        `json:"in"`
+	L1Res    []string  `json:"l1res"`
+	L1Hash   []string  `json:"l1hash"`              // the hash the syncer stored per block
+	Fin      *HdrObs   `json:"fin"`                 // the scripted node's finalized block
+	FinFails bool      `json:"fin_fails,omitempty"` // ... and whether the query for it fails in the observed attempt
+	Hdrs     []HdrObs  `json:"hdrs"`                // ... and for every explicit number of an L1 block (empty when HdrErr)
+	Claims   []ClaimIn `json:"claims"`              // the claims as the REAL L2 store returned them for [1, last]
+	RTripOK  bool      `json:"rtrip_ok"`
+	Named    string    `json:"named"` // resolved named root ("" = none)
+	PP       Obs       `json:"pp"`
+	Direct   Obs       `json:"direct"`
+	Guard    string    `json:"guard,omitempty"` // CheckIfClaimsArePartOfFinalizedL1InfoTree(named root, claims): "ok" | "err" ("" = no named root)
+	Err      string    `json:"err,omitempty"`
 }
 
 // ---------------------------------------------------------------------------------------------
@@ -207,6 +212,7 @@ var errRPC = errors.New("scripted: L1 RPC failure")
 type l1Client struct {
 	aggkittypes.BaseEthereumClienter // nil: any other method panics (none is called)
 	in                               *In
+	warm                             *uint64 // while set: the node's finalized block is this one and no call fails
 }
 
 func (c *l1Client) saltOf(n uint64) uint64 {
@@ -222,12 +228,15 @@ func (c *l1Client) HeaderByNumber(_ context.Context, number *big.Int) (*ethtypes
 		if number.Int64() != int64(aggkittypes.Finalized) {
 			return nil, fmt.Errorf("scripted: unexpected tag %s", number)
 		}
+		if c.warm != nil {
+			return header(*c.warm, c.saltOf(*c.warm)), nil
+		}
 		if c.in.FinErr {
 			return nil, errRPC
 		}
 		return header(c.in.Fin, c.saltOf(c.in.Fin)), nil
 	}
-	if c.in.HdrErr || number == nil {
+	if (c.in.HdrErr && c.warm == nil) || number == nil {
 		return nil, errRPC
 	}
 	return header(number.Uint64(), c.saltOf(number.Uint64())), nil
@@ -423,7 +432,8 @@ func run(in In, dir string, n int) (out Out) {
 			out.Hdrs = append(out.Hdrs, HdrObs{b.Num, hx(header(b.Num, b.Salt).Hash())})
 		}
 	}
-	if !in.FinErr {
+	out.FinFails = in.FinErr
+	{ // the node's finalized block is reported also when the query for it is scripted to fail: the property speaks about it
 		out.Fin = &HdrObs{in.Fin, hx(header(in.Fin, client.saltOf(in.Fin)).Hash())}
 	}
 
@@ -491,6 +501,11 @@ func run(in In, dir string, n int) (out Out) {
 	base := flows.NewBaseFlow(logger, bq, storage, l1q, fixedLER{}, flows.NewBaseFlowConfigDefault())
 	pp := flows.NewPPFlow(logger, base, storage, l1q, bq, &keySigner{key: key}, false, 0)
 
+	if in.Warm != nil {
+		client.warm = in.Warm
+		_, _ = pp.GetCertificateBuildParams(ctx)
+		client.warm = nil
+	}
 	params, err := pp.GetCertificateBuildParams(ctx)
 	switch {
 	case err != nil:
@@ -514,6 +529,12 @@ func run(in In, dir string, n int) (out Out) {
 	if in.NamedIdx >= 0 {
 		if r, err := l1s.GetL1InfoTreeRootByIndex(ctx, uint32(in.NamedIdx)); err == nil {
 			out.Named = hx(r.Hash)
+			// the test the aggchain-prover flow makes before it builds a certificate against a root
+			if gerr := l1q.CheckIfClaimsArePartOfFinalizedL1InfoTree(&r, claims); gerr == nil {
+				out.Guard = "ok"
+			} else {
+				out.Guard = "err"
+			}
 			// as both flows do: VerifyBuildParams (verifyClaimGERs) first, then the exits against the named root
 			var ibes []*agglayertypes.ImportedBridgeExit
 			err := base.VerifyBuildParams(ctx, &aggsendertypes.CertificateBuildParams{Claims: claims})
